@@ -169,6 +169,8 @@ pub static OTHER: A = A(99);
 impl AsRef<A> for A { fn as_ref(&self) -> &A { &OTHER } }
 impl AsMut<A> for A { fn as_mut(&mut self) -> &mut A { Box::leak(Box::new(A(98))) } }
 pub type Alias = A;
+impl<T> AsRef<[T]> for A { fn as_ref(&self) -> &[T] { &[] } }
+impl<T> AsMut<[T]> for A { fn as_mut(&mut self) -> &mut [T] { &mut [] } }
 /// A wrapper whose own Deref / AsRef / Index / IntoIterator expose its SECOND half (reversed for iteration).
 #[derive(Debug, Clone, PartialEq)] pub struct W(pub Vec<A>, pub Vec<A>);
 impl W { pub fn new(k: u8) -> W { W(vec![A(k), A(k + 1)], vec![A(k + 10), A(k + 11), A(k + 12)]) } }
@@ -305,6 +307,18 @@ def behaviour(res, rng, tier):
             f'check("@ID", "owned and shared forms visit the same elements in the same order", format!("{{:?}}", goto), format!("{{:?}}", refv));',
             f'for x in &mut s {{ x.0 = 9; }} check("@ID", "writes through the mutable form are visible in field {k}", {f}.clone().into_iter().all(|x| x.0 == 9).to_string(), String::from("true"));',
         ] + [f'check("@ID", "neighbour field {j} untouched", format!("{{:?}}", {acc(j)}), format!("{{:?}}", {mk(j)}));' for j in range(n) if j != k])
+        # a generic struct, a field whose type mentions no parameter, and a type list in which one type mentions a parameter while
+        # another is an alias of the field's own type: "are generics involved" is a question about each listed type, not about
+        # the list (seed C14-l) - the alias still yields the field itself, the generic one is forwarded
+        for attrs in ("#[as_ref(Alias, [T])] #[as_mut(Alias, [T])]", "#[as_ref([T], Alias)] #[as_mut([T], Alias)]",
+                      "#[as_ref([T])] #[as_ref(Alias)] #[as_mut(Alias)] #[as_mut([T])]"):
+            src = f"#[derive(derive_more::AsRef, derive_more::AsMut, Clone, Debug)] pub struct S<T>({attrs} pub A, pub core::marker::PhantomData<T>);"
+            add(src, [
+                "let mut s = S::<u16>(A(1), core::marker::PhantomData);",
+                'check("@ID", "as_ref to an alias of the field type is the field itself (generic struct, mixed list)", addr(<S<u16> as AsRef<A>>::as_ref(&s)).to_string(), addr(&s.0).to_string());',
+                'let a = addr(&s.0); check("@ID", "as_mut to an alias of the field type is the field itself (generic struct, mixed list)", addr(<S<u16> as AsMut<A>>::as_mut(&mut s)).to_string(), a.to_string());',
+                'check("@ID", "as_ref to the generic listed type is the field type own impl", <S<u16> as AsRef<[u16]>>::as_ref(&s).len().to_string(), String::from("0"));',
+            ])
         # AsRef / AsMut on a field of type A: plain, listed own type, alias of own type, qualified path
         for listed in ["", "(A)", "(Alias)", "(self::A)", "(crate::A)", "(super::A)"]:
             if listed in ("(self::A)", "(super::A)") :
